@@ -152,6 +152,10 @@ Section Rel.
   Proof.
     induction fuel as [|k IH]; intros Rs f; simpl; [exact I|].
     destruct (nth_error (flows g) f) as [fl|]; [|exact I].
+    destruct (match closes_of g f with
+              | Some l => if existsb (Nat.eqb l) Rs then None else Some l
+              | None => None
+              end) as [l|]; [apply IH|].
     assert (H := pnames_with_rel _ _ Rs fl IH).
     destruct (pnames_with canon1 g (names_pure canon1 g k) Rs fl),
              (pnames_with canon2 g (names_pure canon2 g k) Rs fl); simpl in *; try contradiction; auto.
